@@ -80,8 +80,9 @@ class C10(Prop):
         "gumbel_cdf_monotone_0_to_1", "gumbel_textbook_laws", "gumbel_code_eq_textbook", "gumbel_code_surv_switches",
         "gumbel_code_invsurv", "wei_textbook_laws", "wei_code_eq_textbook", "wei_outside_support",
         "gev_textbook_laws", "gev_code_eq_textbook", "gev_code_logsurv", "gev_gumbel_branch_partial", "gev_outside_support",
-        "gam_laws_partial", "sxp_laws_partial", "normal_laws_partial", "hxp_cdf_add_surv_partial", "gam_sxp_outside_support", "pdf_integrates_to_cdf_differences_partial",
-        "gev_gumbel_branch_distance", "bisection_inverses_bracket", "mixture_log_versions_partial")]
+        "gam_laws_partial", "sxp_laws_partial", "normal_laws_partial", "hxp_mixture_laws", "mixgev_mixture_laws", "vec_extremes", "gam_sxp_outside_support", "pdf_integrates_to_cdf_differences",
+        "gev_gumbel_branch_distance", "bisection_inverses_generated", "bisection_inverses_bracket", "bisection_inverses_accuracy",
+        "bisection_inverses_terminate", "mixture_log_versions_partial")]
     claimed = True
     technique = ("Lean 4 proof about the C functions translated from the working tree on every run (clang-14 AST -> Lean, polymorphic "
                  "over a numeric class): real-analysis theorems at the R instance, the same definitions executed at Float bit-for-bit "
@@ -122,11 +123,13 @@ class C10(Prop):
     # HAND model (esl_stats_LogGamma / IncompleteGamma / erfc, the mixture loops, esl_vec_DLogSum) are compared numerically:
     # a harmless re-implementation of those algorithms (other series cut-off, summation order, libm erfc) must not alarm,
     # and anything larger is far above these bounds (and is also judged by the closed-form monitors).
-    H_TOL = {"sxp": (1e-5, 1e-12), "gam": (1e-5, 1e-12), "normal": (1e-11, 0.0), "hxp": (1e-11, 1e-15), "mixgev": (1e-11, 1e-15),
+    H_TOL = {"sxp": (1e-5, 1e-12), "gam": (1e-5, 1e-12), "normal": (1e-11, 0.0),
              "esl_stats_LogGamma": (1e-9, 1e-8), "esl_stats_IncGammaP": (1e-5, 1e-12), "esl_stats_IncGammaQ": (1e-5, 1e-12),
              "esl_stats_erfc": (1e-11, 0.0),
-             # bracketing + bisection inverses (hand model Dist/Bisect.lean): stop at relative width 1e-6
-             "esl_sxp_invcdf": (1e-5, 1e-9), "esl_gam_invcdf": (1e-5, 1e-9), "mixinv": (1e-5, 1e-9)}
+             # the translated bisection inverses of sxp / gam call the hand-modelled IncompleteGamma: stop at relative width 1e-6
+             "esl_sxp_invcdf": (1e-5, 1e-9), "esl_gam_invcdf": (1e-5, 1e-9)}
+    # (round 3: the mixtures esl_hxp_* / esl_mixgev_* incl. esl_vec_DLogSum and all four bisection inverses are TRANSLATED,
+    #  so `mix` operations are compared bit-for-bit)
 
     @staticmethod
     def close(a, b, rel, ab):
@@ -154,9 +157,7 @@ class C10(Prop):
                 if kind == "sample" and fns[0] in ("esl_sxp_Sample", "esl_gam_Sample", "esl_lognormal_Sample"):
                     continue
             tol = None
-            if kind == "mix":
-                tol = self.H_TOL["mixinv"] if kv.get("fn") == "invcdf" else self.H_TOL.get(kv.get("fam"))
-            elif kind in ("f", "f2"):
+            if kind in ("f", "f2"):
                 tol = self.H_TOL.get(fns[0]) or self.H_TOL.get(R.split_fn(fns[0])[0])
             va, vb = parse_out(a), parse_out(b)
             if tol and va is not None and vb is not None and len(va) == len(vb) and all(self.close(x, y, *tol) for x, y in zip(va, vb)):
